@@ -14,7 +14,8 @@ META = {
     "assumptions": ["garbage that contains the frame-start marker and frames with bad checksums are C10's subject"],
 }
 REQUIRED_ORACLES = ["delivery", "journal", "state-and-tap"]
-REQUIRED_COUNTERS = ["streams_ending_on_a_full_4096_byte_read", "cases_over_4096_bytes", "cases_with_garbage", "streams_with_a_frame_the_session_layer_chokes_on"]
+REQUIRED_COUNTERS = ["streams_ending_on_a_full_4096_byte_read", "cases_over_4096_bytes", "cases_with_garbage", "streams_with_a_frame_the_session_layer_chokes_on",
+                     "client_connects_with_a_read_boundary_inside_the_first_frame"]
 NSHARDS = 16
 
 
@@ -168,6 +169,62 @@ async def run_partition(acc, clock, stream, frames, cuts, garb_regions, cid, sid
         E.stop_tasks(ep)
 
 
+async def run_client_connect(acc, clock, cut, wait, cid):
+    """The initiator's own connect(): the application awaits connect(), its on_connect() sends the Logon and (wait > 0) then waits for
+    something; the acceptor's Logon and first application frames arrive meanwhile, cut at `cut` bytes into the first application frame."""
+    import asyncio
+    from asyncfix import FIXMessage, Journaler
+    from asyncfix.connection import ConnectionState
+    from vf.sim import endpoint as E
+    from vf.sim.net import MemReader, MemWriter, Tap, install_open_connection, settle, advance, SpinAbort
+    j = Journaler()
+    ep = E.new_endpoint("client", "ME", "PEER", j, name="ME")
+    reader = MemReader("ME.reader")
+    tap = Tap(clock, "ME")
+    writer = MemWriter(tap, None, "ME.writer")
+    writer.on_close = reader.feed_eof
+    ep.vf_tap, ep.vf_reader, ep.vf_writer = tap, reader, writer
+    undo = install_open_connection(lambda host, port: (reader, writer))
+
+    async def on_connect():
+        await ep.send_msg(FIXMessage("A", {98: 0, 108: 30}))
+        if wait:
+            await asyncio.sleep(wait)       # e.g. waiting for the session to come up before returning to the caller
+    ep.vf_hooks["on_connect"] = on_connect
+    peer = E.Peer("PEER", "ME")
+    logon = peer.logon()
+    frames = [peer.frame("D", None, [(11, f"cc{i}"), (55, "X"), (58, "t" * 40)]) for i in range(3)]
+    w = {"cut_into_first_application_frame": cut, "on_connect_waits": wait}
+    task = asyncio.get_running_loop().create_task(ep.connect())
+    try:
+        await settle()
+        reader.feed(logon + frames[0][:cut])
+        await settle()
+        await advance(wait + 0.2)
+        reader.feed(frames[0][cut:] + frames[1] + frames[2])
+        await settle()
+        acc.oracle("delivery")
+        got = [r[1] for r in ep.rx]
+        w["delivered"] = got
+        w["tap"] = [fixwire.show(b)[:80] for b in tap.frames(0)]
+        w["state"] = ep.connection_state.name
+        if got != ["cc0", "cc1", "cc2"]:
+            acc.violation("client-connect:delivery-differs", f"first connection of an initiator, read boundary {cut} bytes into the first application frame, on_connect() "
+                          f"{'waits ' + str(wait) + ' s' if wait else 'returns at once'}: delivered {got}", w, cid)
+            return
+        acc.oracle("state-and-tap")
+        kinds = [fixwire.get(f, 35) for f in E.parse_tap(tap.frames(0)) if not isinstance(f, Exception)]
+        if ep.connection_state != ConnectionState.ACTIVE or any(k in ("2", "4", "5") for k in kinds):
+            acc.violation("client-connect:recovery-traffic", f"state {ep.connection_state.name}, frames written {kinds}", w, cid)
+    except SpinAbort as e:
+        acc.violation("reader-spins", str(e), w, cid)
+    finally:
+        undo()
+        if not task.done():
+            task.cancel()
+        E.stop_tasks(ep)
+
+
 def run_shard(spec, acc):
     from asyncfix.codec import Codec
     from asyncfix.connection import AsyncFIXConnection as C
@@ -231,6 +288,17 @@ def run_shard(spec, acc):
                 acc.add("exhaustive_partitions_with_junk")
                 await run_partition(acc, clock, stream, frames, cuts, garb, cid, f"exj{ji}")
         acc.add("exhaustive_partitions", 0)
+        # ---- the initiator's own connect() with an on_connect() that returns at once / waits, read boundary inside the first frame
+        ci = 0
+        for wait in (0, 0.3, 2.0):
+            for cut in (1, 5, 9, 20, 37, 60, 86, 100):
+                ci += 1
+                cid = f"client-connect:{wait}:{cut}"
+                if ci % nsh != shard or not acc.want(cid):
+                    continue
+                await run_client_connect(acc, clock, cut, wait, cid)
+                acc.case_disjoint(nontrivial=True)
+                acc.add("client_connects_with_a_read_boundary_inside_the_first_frame")
         # ---- streams of exactly k * 4096 bytes: the library's read(4096) comes back full and nothing follows
         for ki, total in enumerate((4096, 8192, 12288, 4096 * 5)):
             for vi, cutstyle in enumerate(("one", "at-4096", "random")):
